@@ -161,9 +161,13 @@ def run_replay(pid, pc, tier, repo, work, replay):
             return 2
         h = ob.split('::')[-1]
         r = kani_run.run_groups([h], 'thorough' if tier == 'thorough' else 'quick', repo, work)
-        if any(v[0] == h for v in r['violations']):
-            print('VIOLATION property=%s replay=%s no-failing-input-found' % (pid, replay))
+        vv = [v for v in r['violations'] if v[0] == h]
+        if vv:
+            cex = vv[0][4].get('cex') if isinstance(vv[0][4], dict) else None
+            print('VIOLATION property=%s replay=%s%s' % (pid, replay, '' if cex else ' no-failing-input-found'))
             print('  failed obligation (replayed): kani::%s' % h)
+            for t_ in vv[0][2][:3]:
+                print('  | ' + t_[:1500])
             return 1
         if r['undecided']:
             for m in r['undecided']:
@@ -362,7 +366,7 @@ def run_check(pid, pc, tier, seed, repo, work, t0, replay):
             cex = r.get('cex')
         rec = {'property': pid, 'obligation': '%s::%s' % (u, f), 'back_end': 'kani' if isinstance(r, dict) else 'verus',
                'source_items': items, 'verifier_output': texts_, 'source_sha256': src_hashes,
-               'counterexample': cex,
+               'counterexample': cex, 'kani_playback': (r.get('playback') if isinstance(r, dict) else None),
                'how_to_replay': './check %s --replay %s' % (pid, rp)}
         if not isinstance(r, dict) and r.gen_path:
             rec['generated_unit_sha256'] = sha(r.gen_path)
